@@ -394,32 +394,20 @@ class ComposedNode(ConfigNode):
     def _propagate_implicit_values(self):
         if not hasattr(self, '_delete'): # happens when unpickling! children are being populated before attributes are set, but its ok since we assume pickled objects are ok anyway, so no need to fix things
             return
-        if self._implicit_delete is None and self._implicit_allow_new is None and self._implicit_safe is None:
-            return
-        if self._delete is not None and self._allow_new is not None and self._safe is not None:
-            return
 
-        # when nothing is inherited, children of a container that deletes by default (a list)
-        # keep the implicit flag they are given on construction (see _get_child_kwargs)
-        implicit_delete = self._implicit_delete
-        if implicit_delete is None and self._default_delete:
-            implicit_delete = True
-
+        # the children inherit exactly what a child attached now would be given (see _get_child_kwargs), whether this
+        # node's flags are explicit or inherited and whether they were set on construction or taken over in a merge;
+        # inherited unsafety is never taken back
+        inherited = self._get_child_kwargs()
         for child in self._children.values():
             fix = False
-            if self._delete is None:
-                if child._implicit_delete != implicit_delete:
-                    child._implicit_delete = implicit_delete
+            for name in ('implicit_delete', 'implicit_allow_new', 'implicit_safe'):
+                if name not in inherited: # (some containers do not hand down every flag)
+                    continue
+                current = getattr(child, '_' + name)
+                if current != inherited[name] and not (name == 'implicit_safe' and current is False):
+                    setattr(child, '_' + name, inherited[name])
                     fix = True
-            if self._allow_new is None:
-                if child._implicit_allow_new != self._implicit_allow_new:
-                    child._implicit_allow_new = self._implicit_allow_new
-                    fix = True
-            if self._safe is None:
-                if child._implicit_safe != self._implicit_safe:
-                    if child._implicit_safe is not False:
-                        child._implicit_safe = self._implicit_safe
-                        fix = True
 
             if fix:
                 child._propagate_implicit_values()
